@@ -59,7 +59,8 @@ VarCk ==
 \* Named deviations from the reference that are recorded as known findings (known_findings.json),
 \* not violations.  Each is modelled exactly (see the q parameter of Codec!TpApply): a result that
 \* matches neither the reference nor the modelled deviation is a violation.
-KnownNames == {"TransportParameterLengthNotEnforced", "CloseFrameExceedsBudget", "VersionNegotiationWithoutFixedBitDropped"}
+KnownNames == {"TransportParameterLengthNotEnforced", "CloseFrameExceedsBudget", "VersionNegotiationWithoutFixedBitDropped",
+               "TokenIssuedTimeOverflowPanics"}
 TpSame(res, ref) == res.ok = ref.ok /\ (res.ok => res.tp = ref.tp)
 TpCk(res, bs, side) ==
   LET ref == RefTp(bs, side, FALSE) IN
@@ -168,6 +169,26 @@ TokenCk ==
   \cup Flag(e.ip2 = IF e.retry THEN [err |-> TRUE] ELSE unval, "TokenAddressBinding")
   \cup Flag(e.rejected = e.muts, "CorruptTokenNotIgnored")
 
+\* A token whose plaintext is arbitrary (sealed with the right key), presented from 192.0.2.7:4433
+\* to destination CID e.dst; tokens never expire in this setup.
+\* KNOWN FINDING (C10) "TokenIssuedTimeOverflowPanics": decode_unix_secs / the expiry computation add
+\* the 64-bit issue time to a SystemTime without a check; 2^63 seconds or more panic ("overflow when
+\* adding duration to instant").  Only a holder of the token key can produce such a token.
+Here == <<192, 0, 2, 7>>
+TokenRawExpected(plain, dst) ==
+  LET t == DecTokenPlain(plain)
+      unval == [err |-> FALSE, rscid |-> <<>>, odcid |-> dst, validated |-> FALSE] IN
+  IF ~t.ok THEN unval
+  ELSE IF t.retry THEN (IF t.ip = Here /\ t.port = 4433 THEN [err |-> FALSE, rscid |-> <<dst>>, odcid |-> t.cid, validated |-> TRUE]
+                        ELSE [err |-> TRUE])
+  ELSE IF t.ip = Here THEN [err |-> FALSE, rscid |-> <<>>, odcid |-> dst, validated |-> TRUE] ELSE unval
+TokenRawCk == Flag(e.res = TokenRawExpected(e.plain, e.dst), "TokenPlaintextDecodeDiffers")
+PanicCk ==
+  IF e.of = "TokenRaw" THEN
+    LET t == DecTokenPlain(e.input.plain) IN
+    IF t.ok /\ t.secs8[1] >= 128 THEN {"TokenIssuedTimeOverflowPanics"} ELSE {"Panicked"}
+  ELSE {"Panicked"}
+
 CidGenCk ==
   Flag(e.valid /\ e.len = 8 /\ Len(e.cid) = 8, "GeneratedCidNotValidated")
   \cup Flag(e.long = EncCidLong(e.cid) /\ e.back = [ok |-> TRUE, d |-> e.cid, p |-> Len(e.cid) + 2], "CidRoundTrip")
@@ -175,7 +196,7 @@ CidGenCk ==
 Check ==
   CASE e.k = "Var" -> VarCk [] e.k = "Dec" -> DecCk [] e.k = "EncFrame" -> EncFrameCk [] e.k = "EncClose" -> EncCloseCk
     [] e.k = "Pn" -> PnCk [] e.k = "Tp" -> TpEncCk [] e.k = "Pkt" -> PktCk [] e.k = "Token" -> TokenCk
-    [] e.k = "CidGen" -> CidGenCk [] e.k = "Panic" -> {"Panicked"} [] OTHER -> {"UnknownRecord"}
+    [] e.k = "TokenRaw" -> TokenRawCk [] e.k = "CidGen" -> CidGenCk [] e.k = "Panic" -> PanicCk [] OTHER -> {"UnknownRecord"}
 
 \* ------------------------------------------------------------------------------- machine
 TInit == l = 1 /\ bad = {} /\ deviations = {} /\ cur = <<0, "none">>
